@@ -387,10 +387,10 @@ pub fn mutated_text(rng: &mut Rng) -> Vec<u8> {
     }
     t
 }
-/// long texts: runs and offsets beyond what fits 8 (thorough: 16) bits, in each field and in the
+/// long texts: runs and offsets beyond what fits 8 and 16 bits, in each field and in the
 /// ignored tail after the comma; an error placed far into the text
 pub fn long_texts(thorough: bool) -> Vec<Vec<u8>> {
-    let lens: &[usize] = if thorough { &[254, 255, 256, 257, 258, 511, 512, 513, 1000, 65534, 65535, 65536, 65537, 70000] } else { &[255, 256, 257, 300] };
+    let lens: &[usize] = if thorough { &[254, 255, 256, 257, 258, 511, 512, 513, 1000, 65534, 65535, 65536, 65537, 70000, 131072] } else { &[255, 256, 257, 300, 65535, 65536, 65537] };
     let mut out = vec![];
     for &ln in lens {
         let run = vec![b'A'; ln];
@@ -437,7 +437,7 @@ pub fn drive_parse(a: &Args, thorough: bool) {
         frontier = next;
     }
     // (b) structured: spelling class x run-built block hashes x terminators
-    let reps = if thorough { 100000 } else { 5000 };
+    let reps = if thorough { 400000 } else { 5000 };
     for i in 0..reps {
         if i % 100 == 0 {
             sh.next_unit();
@@ -456,14 +456,14 @@ pub fn drive_parse(a: &Args, thorough: bool) {
         ev_parse(&mut sh, t);
         n += 1;
     }
-    // (b'') long texts: runs and offsets beyond what fits 8 (thorough: 16) bits
+    // (b'') long texts: runs and offsets beyond what fits 8 and 16 bits
     for t in long_texts(thorough) {
         sh.next_unit();
         ev_parse(&mut sh, &t);
         n += 1;
     }
     // (c) byte-level mutations of accepted texts (incl. generator output)
-    let reps = if thorough { 200000 } else { 8000 };
+    let reps = if thorough { 600000 } else { 8000 };
     for i in 0..reps {
         if i % 100 == 0 {
             sh.next_unit();
@@ -534,7 +534,7 @@ pub fn drive_fmt(a: &Args, thorough: bool) {
             }
         }
     }
-    for _ in 0..(if thorough { 100000 } else { 1000 }) {
+    for _ in 0..(if thorough { 400000 } else { 1000 }) {
         sh.next_unit();
         let al = alphabet(&mut rng);
         let la = pick_bh_len(&mut rng, 64);
@@ -732,7 +732,7 @@ pub fn drive_norm(a: &Args, thorough: bool) {
             }
         }
     }
-    for _ in 0..(if thorough { 200000 } else { 4000 }) {
+    for _ in 0..(if thorough { 500000 } else { 4000 }) {
         sh.next_unit();
         // geometric run lengths
         let mk = |rng: &mut Rng, cap: usize| -> Vec<u8> {
@@ -883,7 +883,7 @@ pub fn drive_dual(a: &Args, thorough: bool) {
         }
         n += 1;
     }
-    for _ in 0..(if thorough { 60000 } else { 1500 }) {
+    for _ in 0..(if thorough { 240000 } else { 1500 }) {
         sh.next_unit();
         let al = alphabet(&mut rng);
         let la = pick_bh_len(&mut rng, 64);
@@ -1105,7 +1105,7 @@ pub fn drive_ord(a: &Args, thorough: bool) {
         sh.emit(&format!("{{\"ev\":\"sort\",\"T\":\"RL\",\"in\":[{}],\"out\":[{}]}}", inp.join(","), out.join(",")));
     }
     // random full-length pairs, incl. pairs that differ only by trailing symbol-0 characters
-    for _ in 0..(if thorough { 300000 } else { 6000 }) {
+    for _ in 0..(if thorough { 1500000 } else { 6000 }) {
         sh.next_unit();
         let al = alphabet(&mut rng);
         let la = pick_bh_len(&mut rng, 64);
@@ -1148,7 +1148,7 @@ pub fn drive_ord(a: &Args, thorough: bool) {
         }
     }
     // dual families
-    n += dual_families(&mut sh, &mut rng, if thorough { 3000 } else { 60 });
+    n += dual_families(&mut sh, &mut rng, if thorough { 12000 } else { 60 });
     println!("STATS {{\"ord\":{{\"events\":{}}}}}", n);
     sh.finish();
 }
